@@ -20,7 +20,8 @@ WKWS = [{}, {}, {"version": 1.2}, {"version": 2.0}, {"wrap": True}, {"wrap": Fal
         {"len_numeric_field": -1}, {"spacer": "  ", "lhs_spacer": ""}, {"data_width": 40, "wrap": True}, {"header_width": 25},
         {"column_fmt": {"0": "%.2f"}}]
 ODD_UNITS = [".1IN", "0.1IN", "M", "", "US/F", "(m)", "[ft]", "m.", "K/M3", "DEG.C"]
-RKWS = [{}, {}, {"engine": "normal"}, {"mnemonic_case": "preserve"}, {"mnemonic_case": "lower"}]
+RKWS = [{}, {}, {"engine": "normal"}, {"mnemonic_case": "preserve"}, {"mnemonic_case": "lower"}, {"null_policy": "none"},
+        {"ignore_header_errors": True}, {"mnemonic_case": "lower", "engine": "normal"}, {"index_unit": "m"}, {"dtypes": "auto"}]
 
 
 def corpus_bytes(name):
